@@ -27,8 +27,8 @@ type drvProxy struct {
 	mu       sync.Mutex
 	pending  []string
 	reqText  map[string]string
-	fetchF   map[string]string // id -> "500" | "garbage" | "close"
-	uploadF  map[string]string // id -> "500-early" | "close-mid" | "500-late"
+	fetchF   map[string]string      // id -> "500" | "garbage" | "close"
+	uploadF  map[string]string      // id -> "500-early" | "close-mid" | "500-late"
 	progress map[string]func(n int) // id -> called with the number of response-body bytes decoded so far
 	uploads  map[string][]byte      // id -> decoded response body
 	status   map[string]int
@@ -137,7 +137,7 @@ func (p *drvProxy) submit(id, reqText string) chan struct{} {
 // suiteStream (C05): a lock-step backend that produces chunk k+1 only after the proxy has
 // observed chunk k, through the real ReverseProxy + forwarder + HTTP client of the agent.
 func suiteStream(e *vh.Env) {
-	e.Result.Rule = "lock-step runs through the real agent code (child process) to a driver-played proxy: the backend flushes chunk k+1 only after the proxy has decoded chunk k from the upload; chunk sizes {1, 2, 100, 4095, 4096, 4097, 32768, 300000, 1 MiB, 2 MiB} and random, 1..200 chunks per response; non-trivial = run with at least 3 chunks or a chunk of at least 4096 bytes"
+	e.Result.Rule = "lock-step runs through the real agent code (child process) to a driver-played proxy: the backend flushes chunk k+1 only after the proxy has decoded chunk k from the upload; shaped scripts (1-2 byte chunks after more than 4096 wire bytes, 900 tiny chunks in a row) then random; chunk sizes {1, 2, 3, 100, 4095, 4096, 4097, 32768, 300000, 1 MiB, 2 MiB} and random, 1..200 chunks per response; non-trivial = run with at least 3 chunks or a chunk of at least 4096 bytes"
 	px := newDrvProxy()
 	defer px.srv.Close()
 	var mu sync.Mutex
@@ -205,9 +205,23 @@ func suiteStream(e *vh.Env) {
 		}
 		var sizes []int
 		budget := 6 << 20
+		// shaped scripts first: tiny chunks (shorter on the wire than any plausible "minimum read") after the
+		// replay buffer of the upload (4096 wire bytes) has filled, and long runs of 1-byte chunks
+		shaped := [][]int{{4096, 1, 1, 2, 1}, {300000, 2, 1, 7, 1, 3}, {1, 2, 3, 4097, 1, 2, 3, 1}, nil, {2000, 2000, 1, 2, 1, 2, 1}, {1 << 20, 1, 1 << 20, 2}}
+		if i < len(shaped) {
+			cnt = 0
+			sizes = shaped[i]
+			if sizes == nil {
+				for k := 0; k < 900; k++ {
+					sizes = append(sizes, 1+k%2)
+				}
+			}
+		}
 		for k := 0; k < cnt; k++ {
 			sz := 1 + rng.Intn(300)
-			if rng.Chance(30) {
+			if rng.Chance(20) {
+				sz = 1 + rng.Intn(3)
+			} else if rng.Chance(30) {
 				sz = special[rng.Intn(len(special))]
 			}
 			if sz > budget {
